@@ -43,7 +43,9 @@ pub fn history_case(ch: &mut Chooser, t: &mut Tally) {
     let valkind = ch.pick_named("valkind", VALKIND);
     let layout = ch.pick_named("layout", LAYOUT);
     // a producer may write the free entry of a deleted object without incrementing its generation
-    let keep_gen = ch.pick_named("free-generation", &["incremented", "kept"]) == 1;
+    let free_style = ch.pick_named("free-generation", &["incremented", "kept", "never-reusable(next 0, generation 65535)"]);
+    let keep_gen = free_style == 1;
+    let dead = free_style == 2;
     let first_nr: u64 = if layout == 1 || layout == 2 { 1 } else { 3 };
     let (cat_nr, pages_nr): (u64, u64) = if first_nr == 1 { (7, 8) } else { (1, 2) };
     let restate_head = layout == 0 || layout == 1;
@@ -87,6 +89,9 @@ pub fn history_case(ch: &mut Chooser, t: &mut Tally) {
             match st {
                 0 => {}
                 1 => {
+                    if g == 65535 {
+                        return; // a number freed for good cannot be used again: not well-formed
+                    }
                     let v = tagged(valkind, sec, nr);
                     fb.add(nr, g, &v);
                     in_use.insert(nr, true);
@@ -103,7 +108,7 @@ pub fn history_case(ch: &mut Chooser, t: &mut Tally) {
                 }
                 _ => {
                     let was = *in_use.get(&nr).unwrap_or(&false);
-                    let ng = if was && !keep_gen { g + 1 } else { g };
+                    let ng = if dead { 65535 } else if was && !keep_gen { g + 1 } else { g };
                     cur_gen.insert(nr, ng);
                     in_use.insert(nr, false);
                     fb.free(nr, ng);
@@ -126,7 +131,13 @@ pub fn history_case(ch: &mut Chooser, t: &mut Tally) {
         if touched_free || sec == 0 {
             let mut next = 0u64;
             for &n in free_now.iter().rev() {
-                fb.section.insert(n, Entry::Free { next, gen: *cur_gen.get(&n).unwrap_or(&0) });
+                let gen = *cur_gen.get(&n).unwrap_or(&0);
+                if gen == 65535 {
+                    // freed for good: not linked into the free list
+                    fb.section.insert(n, Entry::Free { next: 0, gen });
+                    continue;
+                }
+                fb.section.insert(n, Entry::Free { next, gen });
                 next = n;
             }
             // (the first section always lists object 0; an update need not)
@@ -377,7 +388,7 @@ pub fn run(tier: Tier, _seed: u64, tally: &mut Tally) -> CheckMeta {
     CheckMeta {
         prop: "C02",
         level: "model_checking",
-        rule: format!("full product of update histories: 1..3 sections x {{table, stream}} x subsection split x per object number ({} numbers) {{absent, direct, compressed, free}} as free dimensions (full product), with option deviations (quick: <= 1 for two object numbers, 0 for three; thorough: <= 2 for two, <= 1 for three) among {{subsection split per entry, own /Root, a new object number, value kind int/name/array, layout: varied object numbers start at 1 instead of 3 / an update that frees objects does not restate object 0, free entries keep the generation of the deleted object}}; ill-formed histories (compressed object in a table section or with generation > 0) are skipped and not counted. Each file is produced by the independent assembler (generations bumped on free/re-use, free list linked), loaded with the library and every object number below /Size resolved and compared with the reference model (map number -> newest mention); trailer root/size/ID must be the newest section's. Non-trivial = more than one section; distinct by file hash. Long chains: full product of {:?} sections x formats {:?} x xref stream numbering {:?} x touched objects {:?} x {:?}: three objects rewritten (or freed and re-used) again and again, so that sections outnumber objects.", nobj, CHAIN_LEN, CHAIN_FORMAT, CHAIN_XREF_NR, CHAIN_TOUCH, CHAIN_CACHE),
+        rule: format!("full product of update histories: 1..3 sections x {{table, stream}} x subsection split x per object number ({} numbers) {{absent, direct, compressed, free}} as free dimensions (full product), with option deviations (quick: <= 1 for two object numbers, 0 for three; thorough: <= 2 for two, <= 1 for three) among {{subsection split per entry, own /Root, a new object number, value kind int/name/array, layout: varied object numbers start at 1 instead of 3 / an update that frees objects does not restate object 0, free entries keep the generation of the deleted object or mark it never reusable (next 0, generation 65535)}}; ill-formed histories (compressed object in a table section or with generation > 0) are skipped and not counted. Each file is produced by the independent assembler (generations bumped on free/re-use, free list linked), loaded with the library and every object number below /Size resolved and compared with the reference model (map number -> newest mention); trailer root/size/ID must be the newest section's. Non-trivial = more than one section; distinct by file hash. Long chains: full product of {:?} sections x formats {:?} x xref stream numbering {:?} x touched objects {:?} x {:?}: three objects rewritten (or freed and re-used) again and again, so that sections outnumber objects.", nobj, CHAIN_LEN, CHAIN_FORMAT, CHAIN_XREF_NR, CHAIN_TOUCH, CHAIN_CACHE),
         assumptions: vec!["hybrid-reference files (/XRefStm) are not generated".into(), "object numbers of the file's own xref/object streams are not compared".into()],
         exhaustive: true,
         bounds: json!({"sections": 3, "objects": 3, "option_deviations": if tier.thorough() { 2 } else { 1 }}),
